@@ -545,3 +545,26 @@ PROPS["C17"] = dict(
     rule="cases: every program of MC_NameResolve (<= MaxFrags fragments, a token on every fragment start) x 8 names (identifiers incl. non-ASCII/astral/joiner, two non-identifiers), queried at every token, one column right of the last and on the next line; seeded multi-line programs (several functions per line, comments with astral characters, names pointing at the blank before the identifier, tokens past the end of a line or on a missing line), 6 queries each, and the 128-budget family; distinct = distinct (op, args); non-trivial = at least 2 tokens",
     assumptions=COMMON_ASSUMPTIONS,
 )
+
+def _corrupt_c05(e):
+    e["out"]["out"] = "panic"
+    return True
+
+PROPS["C05"] = dict(
+    level="exploration",
+    level_text="Lifecycle.tla is the API-level state machine (decode -> err | map(kind); on a map: queries, guarded serialisation, re-decoding, rewriting with every option combination, flattening) plus a fault model of documents; TLC enumerates every document kind x every set of <= MaxFaults faults (missing / repeated / null / wrongly typed keys, array length mismatches, extreme numbers 0, 2^31, 2^32-1, 2^32, -1 in offsets and indices, 7..13 digit and negative VLQ values, nesting depth 1/8/200, malformed Hermes payloads), predicts the decode outcome class where the format determines it, and model-checks the protocol facts. Each faulty document is concretised to bytes and driven through the whole life cycle on the real crate under catch_unwind, a wall-clock watchdog and an allocation counter; the STATEFUL trace spec accepts each recorded step only if Lifecycle!LStep allows it. Arbitrary bytes, JSON-ish bytes and byte-level mutations of the repository fixtures are driven through the same life cycle. This is exploration of the byte space, not model checking of it: the specification is the judge and the fault enumerator, input diversity comes from the drivers.",
+    level_note="built with overflow-checks and debug-assertions on, as the property requires; a step that takes more than 20 s is 'timeout', growth beyond 256 MiB + 4 KiB per input byte is 'alloc'",
+    technique="TLA+ life-cycle state machine + document fault model, TLC fault enumeration, stateful trace validation of real life cycles (panics, hangs, allocation blow-ups as data)",
+    mc=[
+        dict(module="MC_Lifecycle", cfg="MC_Lifecycle_quick.cfg", tiers=("quick",), workers=8),
+        dict(module="MC_Lifecycle", cfg="MC_Lifecycle_thorough.cfg", tiers=("thorough",), workers=14, timeout=3400, heap="24g"),
+    ],
+    trace="Trace_C05",
+    drive=dict(quick=dict(n=1200, size=3), thorough=dict(n=40000, size=6)),
+    nontrivial=lambda e: e["op"] not in ("detect",) ,
+    corrupt=_corrupt_c05,
+    corruptible=lambda e: True,
+    harness_timeout=7000,
+    rule="cases: every (kind, fault set) of MC_Lifecycle (3 kinds x ~80 faults, pairs in thorough) concretised on base documents; seeded: arbitrary bytes, JSON-alphabet bytes, 1-4 byte-level mutations (overwrite, delete, insert structural bytes, truncate, splice extreme numbers, duplicate chunks, long VLQ runs, swap) of every repository fixture map, random regular / Hermes / nested index documents (mutated or not), random multi-fault documents; each run through detect, decode, ~all read-only queries, serialise + redecode, 16 rewrite option combinations, flatten; distinct = distinct (input digest, step); non-trivial = any step other than detection",
+    assumptions=COMMON_ASSUMPTIONS + ["fixtures are read from /repo/tests/fixtures at run time"],
+)
